@@ -179,6 +179,9 @@ func newPackage(program *loader.Program, pkgInfo *loader.PackageInfo, plugins []
 		}
 
 		if changed {
+			if bad := firstBadNode(fileInfo.astFile); bad != nil {
+				return nil, fmt.Errorf("cannot rename the derive calls in %s: it does not parse at %s, and writing it back would lose what follows", fileInfo.fullpath, program.Fset.Position(bad.Pos()))
+			}
 			info, err := os.Stat(fileInfo.fullpath)
 			if err != nil {
 				return nil, fmt.Errorf("stat %s: %v", fileInfo.fullpath, err)
@@ -195,6 +198,23 @@ func newPackage(program *loader.Program, pkgInfo *loader.PackageInfo, plugins []
 
 	}
 	return pkg, nil
+}
+
+// firstBadNode returns the first placeholder that the parser left in the file for source it could not parse, or nil.
+func firstBadNode(file *ast.File) ast.Node {
+	var bad ast.Node
+	ast.Inspect(file, func(n ast.Node) bool {
+		if bad != nil {
+			return false
+		}
+		switch n.(type) {
+		case *ast.BadExpr, *ast.BadStmt, *ast.BadDecl:
+			bad = n
+			return false
+		}
+		return true
+	})
+	return bad
 }
 
 type pkg struct {
